@@ -36,13 +36,23 @@ def _oracle(args):
     new_ids = [e.get('eId') for e in a_ident]
     # history-free: scramble the old ids
     b = copy.deepcopy(el)
+    bi = 0
     for e in eidlib.iter_outside_meta(b):
         t = eidlib.local(e)
         if t in G.id_exempt or t in G.id_exempt_but_pass_to_children: continue
         r = rng.random()
         if r < 0.3: e.attrib.pop('eId', None)
         elif r < 0.6: e.set('eId', rng.choice(['', 'x', 'sec_1', 'dup']))
-    IdGenerator().rewrite_all_eids(b, prefix)
+        # attributes that are not the eId (an AKN 2.0 style id, a wId, a GUID) are data: with the id the element is about to get, or another
+        r2 = rng.random()
+        if r2 < 0.15 and bi < len(new_ids):
+            e.set(rng.choice(['id', 'id', 'wId', 'GUID']), new_ids[bi] or 'x'); e.attrib.pop('eId', None) if rng.random() < 0.7 else e.set('eId', '')
+        elif r2 < 0.25:
+            e.set(rng.choice(['id', 'wId', 'evolvingId']), rng.choice(['section-1', 'dup', 'x']))
+        bi += 1
+    b_old = set(e.get('eId') for e in eidlib.iter_outside_meta(b) if e.get('eId'))
+    mb = dict(IdGenerator().rewrite_all_eids(b, prefix))
+    if any(k not in b_old for k in mb): return 'the mapping has a key that was never an eId: %r' % [k for k in mb if k not in b_old][:3]
     b_ids = [e.get('eId') for e in eidlib.iter_outside_meta(b) if eidlib.local(e) not in G.id_exempt and eidlib.local(e) not in G.id_exempt_but_pass_to_children]
     if b_ids != new_ids: return 'new ids depend on the ids that were there before'
     # idempotent (same object, and fresh object)
